@@ -671,9 +671,10 @@ class Folder:
                     if isinstance(e, ast.Slice):
                         lo = self.fold(e.lower) if e.lower is not None else None
                         hi = self.fold(e.upper) if e.upper is not None else None
-                        if e.step is not None or not all(v is None or (isinstance(v, int) and not isinstance(v, bool)) for v in (lo, hi)):
+                        st_ = self.fold(e.step) if e.step is not None else None
+                        if not all(v is None or (isinstance(v, int) and not isinstance(v, bool)) for v in (lo, hi, st_)) or (st_ is not None and st_ <= 0):
                             raise Unfoldable("slice")
-                        return slice(lo, hi)
+                        return slice(lo, hi, st_)
                     v = self.fold(e)
                     if isinstance(v, int) and not isinstance(v, bool):
                         return v
@@ -925,6 +926,15 @@ class Folder:
                         d_ = d % (len(shp_) + 1)
                         return _reshape(v, shp_[:d_] + [1] + shp_[d_:])
                 raise Unfoldable("unsqueeze")
+            if m == "masked_fill" and len(node.args) == 2 and not node.keywords:
+                v = self.fold(node.func.value)
+                mk_, val_ = self.fold(node.args[0]), self.fold(node.args[1])
+                if isinstance(v, PySeq) or not isinstance(mk_, (BoolList, bool)) or isinstance(val_, list):
+                    raise Unfoldable("masked_fill arguments")
+                try:
+                    return _ew(lambda x, c: val_ if c else x, v, mk_)
+                except TypeError as exc:
+                    raise Unfoldable(str(exc))
             if m == "unbind" and len(node.args) + len(node.keywords) <= 1 and all(k.arg == "dim" for k in node.keywords):
                 v = self.fold(node.func.value)
                 d_ = self.fold(node.args[0]) if node.args else (self.fold(node.keywords[0].value) if node.keywords else 0)
@@ -1286,6 +1296,13 @@ class Folder:
                     except (TypeError, IndexError) as exc:
                         raise Unfoldable(f"sum over an axis: {exc}")
                 raise Unfoldable("sum over an axis")
+            if short in ("amin", "amax") and nm.startswith("torch.") and node.args and (len(node.args) == 2 or any(k.arg == "dim" for k in node.keywords)):
+                v_ = self.fold(node.args[0])
+                d_ = self.fold(node.args[1] if len(node.args) == 2 else next(k.value for k in node.keywords if k.arg == "dim"))
+                kd_ = bool(next((self.fold(k.value) for k in node.keywords if k.arg == "keepdim"), False))
+                if isinstance(v_, list) and not isinstance(v_, PySeq) and isinstance(d_, int) and not isinstance(d_, bool):
+                    return _fibers(v_, d_, min if short == "amin" else max, kd_)
+                raise Unfoldable(f"{short} over an axis")
             if short in ("sum", "prod", "amin", "amax", "argmin", "argmax", "mean") and node.args:
                 v = self.fold(node.args[0])
                 if short in ("sum", "mean", "prod", "amin", "amax") and isinstance(v, list) and not isinstance(v, PySeq) and v and isinstance(v[0], list) and len(node.args) == 1 and not node.keywords:
@@ -1431,6 +1448,17 @@ class Folder:
                 if isinstance(v, list):
                     raise Unfoldable("bool of a list")
                 return bool(v)
+            if nm == "float" and len(node.args) == 1 and isinstance(node.args[0], ast.Constant) and isinstance(node.args[0].value, str):
+                try:
+                    return float(node.args[0].value)
+                except ValueError as exc:
+                    raise Unfoldable(str(exc))
+            if short in ("real", "imag", "conj") and nm.startswith("torch.") and len(node.args) == 1 and not node.keywords:
+                v_ = self.fold(node.args[0])
+                if isinstance(v_, PySeq):
+                    raise Unfoldable(f"{short} of a python sequence")
+                fn_ = {"real": lambda x: x.real if isinstance(x, complex) else x, "imag": lambda x: x.imag if isinstance(x, complex) else (0 if isinstance(x, int) else 0.0), "conj": lambda x: x.conjugate() if isinstance(x, complex) else x}[short]
+                return _ew(fn_, v_)
             if short in ("tensor", "as_tensor", "Tensor", "array", "float", "int") and node.args:
                 return self.fold(node.args[0])
             if short in ("cos", "sin", "sqrt", "exp", "abs") and node.args:
